@@ -65,6 +65,42 @@ TEXT = {
         "note": NOTE_COMMON + " F11 (grandfathered transaction replayable) is pinned by a passing test and recorded as a known finding.",
         "technique": "Lean 4 invariant theorems + differential execution + marker oracle",
     },
+    "C06": {
+        "level": "C06_iff (a block is accepted iff all its transactions are valid against the successor state and its header equals the header obtained by applying them and the action and sealing), C06_result_header, C06_honest (honestly built blocks are accepted and yield exactly the sealed state; the genesis fallback header is irrelevant after next_unsealed), C06_header_mutation (any header change ⇒ WrongHeader), C06_deterministic / C06_content_mutation (a changed transaction set or action is accepted only if it seals to the very same header), C06_delta_equivalent + witness (known finding F12). apply_block verdicts of honest blocks and of every single-field mutation (11 header fields, transaction add/remove/edit, action toggle/delta/destination) are compared with the model; harness facts check that honest blocks are accepted, that the returned state has the block's header, and that no mutated block is accepted.",
+        "design_ref": "DESIGN.md §4 C06",
+        "note": NOTE_COMMON + " F12 (δ-equivalent proposer actions) is an open known finding.",
+        "technique": "Lean 4 iff-characterisation of apply_block + differential execution + block-mutation facts",
+    },
+    "C07": {
+        "level": "Merkle part (generic in the two hash functions, with novasmt's zero rules): the root computed by insertions equals the root of the content (C07_root_of_content) so equal contents give equal roots, inserts commute, deletes restore; proofs are complete (C07_proof_complete) and, with hash injectivity away from the zero rules, sound (C07_proof_sound), and different contents have different roots; dense tree completeness (C07_dense_complete); non-vacuity with concrete injective hashers. Chain part: C07_chain (height+1, previous = hash of parent header, network constant, history extended by exactly the parent header), C07_sensitive (equal headers ⇒ equal coins, counts, pools, stakes, transactions, history, fee pool, multiplier, DOSC speed — not tips), C07_scalar_change. Headers produced by next_unsealed / apply_block / restore are compared with the model field by field (the model computes scalars, previous-hash and heights itself).",
+        "design_ref": "DESIGN.md §4 C07",
+        "note": NOTE_COMMON + " novasmt's hexary compression and node store are only exercised. Collision-freeness is an explicit hypothesis.",
+        "technique": "Lean 4 theorems on a symbolic SMT and on the header chain + differential execution",
+    },
+    "C08": {
+        "level": "C08_roundtrip: restoring from the block (with the stake set and the trees the roots denote) gives back every field of the state except the pending tips; C08_restart_partial: with no pending tips the rebuilt state *is* the original, hence identical on every continuation; C08_tips_zero_after_action (sealing with an action is always a faithful restart point); the known finding F6 is proved on the model (C08_tips_kept_without_action, C08_tips_lost_on_restore, C08_reward_depends_on_tips). The dump of every restored state and the continuation from it are compared with the model.",
+        "design_ref": "DESIGN.md §4 C08",
+        "note": NOTE_COMMON + " F6 (pending tips are not in the block) is an open known finding; the content-addressed store is not modelled.",
+        "technique": "Lean 4 round-trip theorem + differential execution of restore and continuation",
+    },
+    "C15": {
+        "level": "C15_kind_filter (sealing leaves every coin that is not an output of a swap/deposit/withdrawal transaction naming a pool canonically — and is not the reward coin — exactly as it was), C15_kinds / C15_requests_name_pool, C15_canonical / C15_one_spelling / C15_reversed_rejected (a pool name has one accepted spelling; reversed, equal-sided and NewCustom names are rejected), C15_swap_own_denom, C15_swap_exact (reserves move by exactly paid-in minus withdrawn; withdrawn = constant-product amount less 0.5%, rounded down), C15_product (never decreases), C15_swap_keeps_reserves, C15_pro_rata (Σ⌊T·vᵢ/Σv⌋ ≤ T), C15_deposit, C15_withdraw. Coins and pools after every seal are compared with the model (blocks mixing all kinds, spellings, both sides, amounts 1…2^120); a Python oracle checks the kind filter, own-denomination and product on the real dumps.",
+        "design_ref": "DESIGN.md §4 C15",
+        "note": NOTE_COMMON + " F4 (no kind test) and F5 (non-canonical names alias slots) were repaired by fix: commits; the legacy deposit rule is an open known finding.",
+        "technique": "Lean 4 invariant + Nat-arithmetic theorems + differential execution + settlement oracle",
+    },
+    "C16": {
+        "level": "C16_builtins_created / C16_builtins_exist (after every successful seal each builtin pool exists), C16_default_has_reserves, C16_partial_withdraw_keeps_reserves, C16_deposit_keeps_reserves, C16_deposit_amounts_positive, C16_subsidy_keeps_reserves, C16_issue_backed (tokens handed out for a block's deposits into a pool never exceed the liquidity recorded for them), C16_withdraw_guard, C16_old_overissue (what was wrong before the fix, F10). Pools after every seal are compared with the model; a Python oracle checks on the real dumps that the builtin pools exist with reserves and that liquidity tokens held in coins never exceed pool.liqs.",
+        "design_ref": "DESIGN.md §4 C16",
+        "note": NOTE_COMMON + " The history-level invariant is checked by the oracle, its per-step lemmas are proved. K-faucet-liq (an off-mainnet faucet can mint liquidity tokens) is an open known finding.",
+        "technique": "Lean 4 per-step invariant lemmas + differential execution + backing oracle",
+    },
+    "C18": {
+        "level": "C18_sound: an accepted ERG mint has a decodable (difficulty, proof), a MelPoW verdict legacy/TIP-910 for the puzzle seeded by the header at the spent coin's height and that coin's id, on mainnet a coin at least 100 blocks old, the measured speed (100·)2^d/age, and ERG outputs ≤ the inflated reward work·speed·10^6/(prevSpeed²·2880); C18_invalid_proof / undecodable / too_recent reject; C18_batch_validates, C18_erg_balanced (no other kind creates ERG), C18_speed_monotone / unchanged / is_max. Accept/reject and the DOSC speed of batches with real small-difficulty proofs under both hashers (corrupted proofs, wrong seeds, ERG at bound−1/bound/bound+1) are compared with the model.",
+        "design_ref": "DESIGN.md §4 C18",
+        "note": NOTE_COMMON + " F9 (melpow::verify panics on malformed proofs) is an open known finding.",
+        "technique": "Lean 4 soundness theorem of the mint validation + differential execution with real proofs",
+    },
     "C20": {
         "level": "coin-map level: the count invariant (entry = number of coins per covenant hash, no zero entries, unique keys) is preserved by insert_coin on a fresh key or with unchanged covenant hash, by remove_coin (which then never underflows), is determined by the coin content, and is established by the TIP-906 activation fold (C20_*). Every count entry of every state of apply/seal/chain histories (including Testnet histories crossing height 500) is compared with the model and recounted from the real coin tree by a Python oracle.",
         "design_ref": "DESIGN.md §4 C20",
@@ -78,11 +114,5 @@ NOTES = "See DESIGN.md. known_findings.json lists genuine defects that were repa
 NOT_YET = {
     "C01": "in progress: model and correspondence exist; theorem and oracle not yet registered",
     "C03": "in progress",
-    "C06": "in progress",
-    "C07": "in progress",
-    "C08": "in progress",
     "C09": "in progress",
-    "C15": "in progress",
-    "C16": "in progress",
-    "C18": "in progress",
 }
